@@ -29,12 +29,19 @@
       (`execCL false`): `oobC`, `divZeroC`, `stuck` are still monitored and do not trip.
     * `compL_simulation_monitored_partial` — with ALL monitors on, for programs whose compiled code
       contains no `malloc` / `free` (tensor allocations; scalar allocations `T x;` are covered).
-    MISSING for the full statement: a static discipline on `free` placement (the `Balanced`
-    placement of Props/C08.lean plus "no use after `free`, also not through aliases") and the
-    proof that under it `execCL true = execCL false`.  Not done in this wave.
+    * `freeOK_sound_c`, `compL_simulation_monitored_full_partial` — with ALL monitors on and
+      WITH tensor allocations, under the explicit, decidable static discipline `FreeOK`
+      (CompileS.lean: per block, `free(x)` only of a pointer `malloc`ed in the same block, once;
+      no dereference of a pointer / window whose alias root has been freed; every `malloc` of the
+      block freed at the brace; names declared once while visible).  `FreeOK` holds of the
+      example program and FAILS on the F7 program (`freeOK_f7_fails`): it is exactly what
+      `MemoryAnalysis` does not establish through window aliases.
+    STILL MISSING: `FreeOK (output of the MemoryAnalysis model memL)` from `Balanced` + the
+    no-alias hypothesis of Props/C08.lean (different statement abstraction, `MStmt`); the tie
+    reports `freeOK` for every compiled procedure instead.
   Every theorem is followed by an `example` on a concrete program.
 -/
-import ExoModel.Lemmas.CSimMon
+import ExoModel.Lemmas.CSimFreeStmt
 
 namespace Exo.CompileS.C02Stmt
 open Exo Exo.CIndex Exo.CSem Exo.CompileS
@@ -110,6 +117,32 @@ theorem compL_simulation_monitored_partial {V : Type} [DataAlg V] (ext : String 
   obtain ⟨h3, h4⟩ := monL_eq cs hnm hst h1
   exact ⟨c', h3, h2, h4⟩
 
+
+/-- **soundness of the static `free` discipline** (C08): C code that satisfies `freeOK`, started
+    in a state where nothing has been freed and all pointers are among `vis0` and point into the
+    heap, and that runs as a block with the status monitors off, runs identically with all monitors
+    on: no `useAfterFree`, no `doubleFree`, no `badFree`, and no `leak` at any closing brace. -/
+theorem freeOK_sound_c {V : Type} [DataAlg V] {vis0 : List Sym} {cs : List CStmt}
+    {c c' : CState V} (hok : freeOK vis0 cs = true) (hentry : Entry vis0 c)
+    (h : execCB false cs c = .ok c') : execCB true cs c = .ok c' :=
+  freeOK_sound hok hentry h
+
+/-- **all monitors on, with tensor allocations.**  For a statement list (after MemoryAnalysis) that
+    compiles, satisfies the static discipline `FreeOK` and whose reference run (as a block)
+    succeeds from a represented state: the fully monitored C run of the compiled body succeeds and
+    ends in the state that represents the reference result.
+    PARTIAL only because of `modOK` (F6) and the constructs `compS` does not cover. -/
+theorem compL_simulation_monitored_full_partial {V : Type} [DataAlg V]
+    (ext : String → List V → V) {Γ Γ' : CEnv} {ss : List Stmt} {cs : List CStmt}
+    {σ σ' : State V} {c : CState V} {vis0 : List Sym}
+    (hc : compL Γ ss = .ok (cs, Γ')) (hmod : Γ'.modOK = true) (hne : Γ.renv ≠ [])
+    (hfresh : Fresh (bindersL ss) Γ σ) (hrep : Rep Γ σ c) (hex : execB ext ss σ = .ok σ')
+    (hfree : FreeOK Γ vis0 ss = true) (hentry : Entry vis0 c) :
+    ∃ c', execCB true cs c = .ok c' ∧ Rep Γ' σ' c' := by
+  obtain ⟨c', h1, h2⟩ := body_simulation_partial ext hc hmod hne hfresh hrep hex
+  have hf : freeOK vis0 cs = true := by
+    simp only [FreeOK, hc] at hfree; exact hfree
+  exact ⟨c', freeOK_sound hf hentry h1, h2⟩
 
 /-! ## non-vacuity: a concrete program
 
@@ -235,6 +268,34 @@ example : execCL false exCs exC ≠ .error .oobC ∧ execCL false exCs exC ≠ .
     execCL false exCs exC ≠ .error .stuck :=
   simulated_run_no_oob_no_divzero_partial extI exHc exMod exNe exFresh exRep exHex
 
+/-- the example satisfies the static `free` discipline … -/
+theorem exFreeOK : FreeOK exΓ [n, x, y] exBody = true := by decide +kernel
+theorem exEntry : Entry [n, x, y] exC := by
+  refine ⟨rfl, by decide, ?_, ?_⟩
+  · intro a h
+    by_cases h1 : a = y
+    · simp [h1]
+    · by_cases h2 : a = x
+      · simp [h2]
+      · simp [exC, lookupSym, h1, h2] at h
+  · intro a cv h
+    by_cases h1 : a = y
+    · subst h1; simp [exC, lookupSym] at h; subst h; decide
+    · by_cases h2 : a = x
+      · subst h2; simp [exC, lookupSym, h1] at h; subst h; decide
+      · simp [exC, lookupSym, h1, h2] at h
+
+example : execCB true exCs exC = execCB false exCs exC := by
+  obtain ⟨c', h1, _⟩ := body_simulation_partial extI exHc exMod exNe exFresh exRep
+    (show execB extI exBody exσ = .ok (State.leave exσ exσ') by rw [execB, exHex]; rfl)
+  rw [h1, freeOK_sound_c (by simpa [FreeOK, exHc] using exFreeOK) exEntry h1]
+
+/-- … hence the fully monitored run of the compiled loop nest (malloc, window, reduce, free)
+    succeeds and represents the reference result -/
+example : ∃ c', execCB true exCs exC = .ok c' ∧ Rep exΓ' (State.leave exσ exσ') c' :=
+  compL_simulation_monitored_full_partial extI exHc exMod exNe exFresh exRep
+    (by rw [execB, exHex]; rfl) exFreeOK exEntry
+
 /-! ### the same loop with a scalar instead of the tensor allocation: all monitors on -/
 
 def s : Sym := ⟨"s", 7⟩
@@ -283,6 +344,10 @@ theorem free_alias_witness :
     (match execCB false f7Cs exC with | .ok _ => true | .error _ => false) = true ∧
     (match execCB true f7Cs exC with | .error e => e == .useAfterFree | .ok _ => false) = true := by
   refine ⟨by decide +kernel, by decide +kernel, by decide +kernel, by decide +kernel⟩
+
+/-- the static discipline REJECTS the F7 program (the `Free` placement of `MemoryAnalysis`
+    through a window alias), and the rejection is necessary: see `free_alias_witness` -/
+theorem freeOK_f7_fails : FreeOK exΓ [n, x, y] f7Body = false := by decide +kernel
 
 /-- F6 at the statement level: `for i in seq(0, 3): y[i] = x[(i - 1) % 3]`.  The compiler's range
     analysis cannot prove `i - 1 ≥ 0` (`modOK = false`), `%` is emitted verbatim, and at `i = 0` the C
